@@ -1,4 +1,190 @@
-/- Driver for C08 (stub: not built yet). -/
+/-
+Driver for C08 (tuning).  Import-free apart from the model.
+
+Line:  run <source> <cv> <n> <gib> <refit> <ops> <table>
+  source : grid:<dict>|<dict>…   dict = key=v1,v2;key=…   (`@` = empty dict, `~e` = empty value list,
+           `~s` = not a sequence, `grid:none` = no dict)      |  list:<params>|<params>…  (`list:none`)
+  params : key=v;key=v  (`@` = {})
+  cv     : s|e : fh : wl : step : iw|none : T|F
+  ops    : comma list of F (fit) p (predict) s (update_predict_single) U (update_predict) u (update) c (cutoff)
+  table  : one entry per distinct parameter set,  params>scores>outsF>outsT>outsUnfitted , entries joined by `|`
+           scores = per-fold scores of evaluate() (rationals / nan, `-` = none) or an error token E:…
+           outs*  = `~`-joined result tokens, one per op position, of a forecaster constructed directly with
+                    these parameters and (re)fitted at every F position (outsF / outsT: update calls that leave
+                    `update_params` to its default forwarded with False / True; `=` = same as outsF) / never fitted.
+The base forecaster is the table machine: state = (parameters, fitted?), a call at op position i answers
+the table's token at i.  Everything else (candidate order, mean, rank, argmin, best_*, refit, guards,
+delegation) is computed by SkVerif.Tune.
+-/
+import SkVerif.Model.Tune
+import SkVerif.Drv.Parse
 namespace SkVerif.Drv.C08
-def handle (_toks : List String) : String := "bad-op"
+open SkVerif SkVerif.Tune SkVerif.Drv
+
+def showErr : Err → String
+  | .value => "E:value" | .type => "E:type" | .key => "E:key" | .index => "E:index"
+  | .attr => "E:attr" | .notFitted => "E:notfitted" | .other => "E:other"
+
+def parseErr? (s : String) : Option Err :=
+  if s == "E:value" then some .value else if s == "E:type" then some .type
+  else if s == "E:key" then some .key else if s == "E:index" then some .index
+  else if s == "E:attr" then some .attr else if s == "E:notfitted" then some .notFitted
+  else if s.startsWith "E:" then some .other else none
+
+def parseParams? (s : String) : Option Params :=
+  if s == "@" then some []
+  else (s.splitOn ";").mapM (fun kv =>
+    match kv.splitOn "=" with
+    | [k, v] => some (k, v)
+    | _ => none)
+
+def showParams (p : Params) : String :=
+  if p.isEmpty then "@" else ";".intercalate (p.map (fun kv => s!"{kv.1}={kv.2}"))
+
+def parseGridDict? (s : String) : Option GridDict :=
+  if s == "@" then some []
+  else (s.splitOn ";").mapM (fun kv =>
+    match kv.splitOn "=" with
+    | [k, v] =>
+      if v == "~e" then some (k, GridVals.seq [])
+      else if v == "~s" then some (k, GridVals.notSeq)
+      else some (k, GridVals.seq (v.splitOn ","))
+    | _ => none)
+
+def parseSource? (s : String) : Option Source :=
+  if s == "grid:none" then some (.grid [])
+  else if s == "list:none" then some (.sampled [])
+  else if s.startsWith "grid:" then (((s.drop 5).toString).splitOn "|").mapM parseGridDict? |>.map Source.grid
+  else if s.startsWith "list:" then (((s.drop 5).toString).splitOn "|").mapM parseParams? |>.map Source.sampled
+  else none
+
+def parseCv? (s : String) : Option CvSpec :=
+  match s.splitOn ":" with
+  | [k, fh, wl, step, iw, sww] => do
+    let kind ← if k == "s" then some Split.Kind.sliding else if k == "e" then some Split.Kind.expanding else none
+    let fh ← parseIntList? fh
+    let wl ← parseInt? wl
+    let step ← parseInt? step
+    let iw ← if iw == "none" then some none else (parseInt? iw).map some
+    let sww ← parseBool? sww
+    pure ⟨kind, fh, wl, step, iw, sww⟩
+  | _ => none
+
+structure Entry where
+  params : Params
+  scores : EvalOut
+  outsF : List String
+  outsT : List String
+  outsU : List String
+
+def parseScores? (s : String) : Option EvalOut :=
+  match parseErr? s with
+  | some e => some (.error e)
+  | none => (parseORatList? s).map Except.ok
+
+def parseEntry? (s : String) : Option Entry :=
+  match s.splitOn ">" with
+  | [p, sc, f, t, u] => do
+    let p ← parseParams? p
+    let sc ← parseScores? sc
+    pure ⟨p, sc, f.splitOn "~", if t == "=" then f.splitOn "~" else t.splitOn "~", u.splitOn "~"⟩
+  | _ => none
+
+def lookup (tab : List Entry) (p : Params) : Option Entry := tab.find? (fun e => e.params == p)
+
+/-- results of a fitted forecaster, with defaulted `update_params` forwarded as the tuner's default says -/
+def Entry.fittedOuts (e : Entry) : List String := if tunerDefaultUpdateParams then e.outsT else e.outsF
+
+/-- the table machine: state = (parameters, fitted?), op = position in the op list -/
+def tableMachine (tab : List Entry) : Machine (Params × Bool) Nat String Nat where
+  init p := (p, false)
+  fit s pos :=
+    match lookup tab s.1 with
+    | none => .error .other
+    | some e =>
+      let tok := e.fittedOuts.getD pos "E:other"
+      match parseErr? tok with
+      | some err => .error err
+      | none => .ok (s.1, true)
+  fitted s := s.2
+  step s pos :=
+    match lookup tab s.1 with
+    | none => (s, .error .other)
+    | some e =>
+      let tok := (if s.2 then e.fittedOuts else e.outsU).getD pos "E:other"
+      match parseErr? tok with
+      | some err => (s, .error err)
+      | none => (s, .ok tok)
+
+def showTOut : Except Err (TVal String) → String
+  | .error e => showErr e
+  | .ok .self => "self"
+  | .ok (.val v) => v
+
+def showFolds (fs : List Split.Fold) : String :=
+  if fs.isEmpty then "none"
+  else ";".intercalate (fs.map (fun f => s!"{showIntList f.1}/{showIntList f.2}"))
+
+def showRank : Option Nat → String
+  | none => "nan"
+  | some r2 => showRat ((r2 : Rat) / 2)
+
+def showResult (cv : CvSpec) (n : Int) : Option SearchResult → String
+  | none => "res=none"
+  | some r =>
+    let cands := "|".intercalate (r.rows.map (fun row => showParams row.params))
+    let means := showORatList (r.rows.map (·.mean))
+    let ranks := ",".intercalate (r.rows.map (fun row => showRank row.rank2))
+    let splits := match foldsOf cv n with
+      | .ok fs => showFolds fs
+      | .error _ => "E"
+    s!"cands={cands} means={means} ranks={ranks} best={r.bestIndex} score={showORat r.bestScore} bparams={showParams r.bestParams} splits={splits}"
+
+def runOps (m : Machine (Params × Bool) Nat String Nat) (cfg : Config CvSpec) (ev : CvSpec → Int → Params → EvalOut)
+    (n : Int) : TState (Params × Bool) → Nat → List String → Option (TState (Params × Bool) × List String)
+  | st, _, [] => some (st, [])
+  | st, pos, k :: ks =>
+    if k == "F" then
+      let (st', o) := fitTuner m cfg ev st n pos
+      (runOps m cfg ev n st' (pos + 1) ks).map (fun r =>
+        (r.1, (match o with | .ok _ => "ok" | .error e => showErr e) :: r.2))
+    else
+      let call? : Option (Call Nat) :=
+        if k == "p" then some (Call.method pos)
+        else if k == "s" || k == "U" then some (Call.updatePredict (fun _ => pos) none)
+        else if k == "u" then some (Call.update (fun _ => pos) none)
+        else if k == "c" then some (Call.cutoff pos)
+        else none
+      match call? with
+      | none => none
+      | some c =>
+        let (st', o) := stepTuner m cfg st c
+        (runOps m cfg ev n st' (pos + 1) ks).map (fun r => (r.1, showTOut o :: r.2))
+
+def handle (toks : List String) : String :=
+  match toks with
+  | ["run", src, cv, n, gib, refit, ops, table] =>
+    match parseSource? src, parseCv? cv, parseInt? n, parseBool? gib, parseBool? refit,
+          (table.splitOn "|").mapM parseEntry? with
+    | some src, some cv, some n, some gib, some refit, some tab =>
+      let cfg : Config CvSpec := ⟨src, cv, gib, refit⟩
+      -- evaluate(): the table's scores; a parameter set the table does not know is a harness bug
+      let known := match candidatesOf src with
+        | .ok cs => cs.all (fun p => (lookup tab p).isSome)
+        | .error _ => true
+      if !known then "bad-op"
+      else
+        let ev : CvSpec → Int → Params → EvalOut := fun _ _ p =>
+          match lookup tab p with
+          | some e => e.scores
+          | none => .error .other
+        let opl := if ops == "-" then [] else ops.splitOn ","
+        match runOps (tableMachine tab) cfg ev n TState.initial 0 opl with
+        | none => "bad-op"
+        | some (st, outs) =>
+          let o := if outs.isEmpty then "-" else "~".intercalate outs
+          s!"{showResult cv n st.result} fitted={showBool st.isFitted} ops={o}"
+    | _, _, _, _, _, _ => "bad-op"
+  | _ => "bad-op"
+
 end SkVerif.Drv.C08
